@@ -171,5 +171,5 @@ pub fn mixed_items(cfg: &DbCfg, nkeys: u16, big: u32, max_items: usize, tree_dep
 }
 
 pub fn mixed_cfg(max_cols: usize, multi: bool) -> impl Strategy<Value = DbCfg> {
-	proptest::collection::vec(any_col(multi), 1..=max_cols).prop_map(DbCfg::new)
+	(proptest::collection::vec(any_col(multi), 1..=max_cols), 0u8..2).prop_map(|(cols, bits)| DbCfg::new(cols).flags(bits))
 }
